@@ -346,3 +346,19 @@ func (c *Ctx) compsOfLoc(l *Loc) []string {
 	}
 	return nil
 }
+
+// ownCode reports whether obligations about the code of this frame belong to
+// the function under verification: its own body and its closures, not the
+// bodies of other functions expanded at call sites (those are checked when
+// they are verified themselves).
+func (f *Frame) ownCode() bool {
+	for fr := f; fr != nil; fr = fr.parent {
+		if fr.depth == 0 {
+			return true
+		}
+		if fr.fn.Parent() == nil {
+			return false
+		}
+	}
+	return true
+}
